@@ -64,9 +64,33 @@ def simulate(prop, name, num, depth, seed, params, module="MCQBFT", state_vars=(
     for k, b in enumerate(behs):
         bb = vlib.trace_behaviour(b, "%s-%d-%d" % (name, seed, k), "sim", state_vars=list(state_vars))
         bb["params"] = params
+        for s in bb["steps"]:
+            st = s.get("state", {}).get("st")
+            if isinstance(st, list):      # TLC prints a function with domain 1..n as a sequence
+                s["state"]["st"] = {str(i + 1): v for i, v in enumerate(st)}
         out.append(bb)
     log("[%s] simulated %d behaviours (%s), %d states, %.0fs" % (prop, len(out), name, r.generated, r.wall))
     return out, r.generated
+
+
+def binding_selftest(prop, behs):
+    """Demonstrates the binding: corrupt one field of one predicted state and expect the replay to notice."""
+    import copy
+    for b in behs:
+        for k, s in enumerate(b["steps"]):
+            st = s.get("state", {}).get("st")
+            if k > 3 and isinstance(st, dict) and any(n.get("started") for n in st.values()):
+                c = copy.deepcopy(b)
+                c["id"] = "selftest-" + b["id"]
+                c["steps"] = c["steps"][:k + 1]
+                key = sorted(kk for kk, n in st.items() if n.get("started"))[0]
+                c["steps"][k]["state"]["st"][key]["round"] += 1
+                res, _ = replay(prop, [c], "selftest")
+                if res["counters"].get("divergences", 0) == 0:
+                    raise vlib.MachineryError("binding self-test failed: a corrupted predicted state was not noticed")
+                return "corrupted st[%s].round at step %d of %s: %d divergences reported" % (
+                    key, k, b["id"], res["counters"]["divergences"])
+    return "skipped (no suitable behaviour)"
 
 
 def faulty_copies(behs, count, mode="all"):
